@@ -114,9 +114,9 @@ func (r *Run) Shard() *Shard { return r.newShard() }
 func (s *Shard) Eval() { s.evals++ }
 
 // State / Transition count explored states / implementation transitions.
-func (s *Shard) State()           { s.states++ }
-func (s *Shard) Transition()      { s.transitions++; s.evals++ }
-func (s *Shard) Count(k string)   { s.counters[k]++ }
+func (s *Shard) State()                { s.states++ }
+func (s *Shard) Transition()           { s.transitions++; s.evals++ }
+func (s *Shard) Count(k string)        { s.counters[k]++ }
 func (s *Shard) Add(k string, n int64) { s.counters[k] += n }
 
 // Nontrivial records a canonical description of a case that is non-trivial by the
